@@ -85,10 +85,14 @@ def parabolic_vertex(ym, y0, yp):
     if PARABOLIC_VARIANT[0] == 'matrix':
         # fit a*t^2 + b*t + c at t = 1, 2, 3 (Rato et al. 2008, section 3.2.1) and locate its vertex
         abc = _W_INV.dot(np.array([ym, y0, yp]))
-        tp = -abc[1] / (2 * abc[0])
+        with np.errstate(divide='ignore', invalid='ignore'):
+            tp = np.clip(-abc[1] / (2 * abc[0]), 1.5, 2.5)
         return tp - 2, tp * abc[1] / 2 + abc[2]
     den = ym - 2 * y0 + yp
-    delta = 0.5 * (ym - yp) / den
+    # the vertex of a parabola through a strict discrete extremum lies within half a sample of it (exactly; rounding on
+    # near-flat triples can say otherwise, and refined locations must stay ordered)
+    with np.errstate(divide='ignore', invalid='ignore'):
+        delta = np.clip(0.5 * (ym - yp) / den, -0.5, 0.5)
     val = y0 - 0.25 * (ym - yp) * delta
     return delta, val
 
@@ -101,6 +105,8 @@ def rounding_sensitive(fn):
         a = fn()
         PARABOLIC_VARIANT[0] = 'matrix'
         b = fn()
+    except (ValueError, FloatingPointError):
+        return np.inf            # the interpolator rejected one variant's refined extrema: as sensitive as it gets
     finally:
         PARABOLIC_VARIANT[0] = old
     if a is None or b is None or np.shape(a) != np.shape(b):
